@@ -36,7 +36,7 @@ class ConvertState:
         return value
 
     def get_variable(self, name: str):
-        return self.variables.get(name) if self.variables else name
+        return self.variables.get(name, name) if self.variables else name
 
 
 class Abbreviation:
